@@ -25,4 +25,16 @@ run quill/backend/BackendWorker.h 's/if \(queues_and_events_empty\)\s*\{\s*_clea
 run quill/backend/BackendWorker.h 's/pos_third_delim - pos_second_delim - delimiter\.size\(\)/pos_third_delim - pos_second_delim/' BW.runtime_md
 run quill/LogMacros.h 's/next_log_at \+= n_occurrences;/next_log_at = call_count + n_occurrences + 1;/' MAC.LOGGER_CALL_LIMIT_EVERY_N
 run quill/core/UnboundedSPSCQueue.h 's/Node const\* current_node = _consumer;/Node const* current_node = _consumer->next;/' UQ.dtor
+run quill/backend/TimestampFormatter.h 's/&_formatted_date\[_formatted_date\.size\(\) - extracted_ms_string\.size\(\)\]/&_formatted_date[_formatted_date.size() - extracted_ms_string.size() - 1]/' TF.write_frac
+run quill/core/DynamicFormatArgStore.h 's/\(mapped_type == fmtquill::detail::type::custom_type\) \|\|\s*\(mapped_type == fmtquill::detail::type::char_type\)/(mapped_type == fmtquill::detail::type::custom_type)/' 'DFAS.push_back[char]'
+run quill/backend/BackendWorker.h 's/formatted_view\.find\(delimiter, pos_second_delim \+ delimiter\.size\(\)\)/formatted_view.find(delimiter, pos_first_delim + delimiter.size())/' BW.apply_runtime_md
+run quill/backend/ManualBackendWorker.h 's/QUILL_CATCH_ALL\(\)\s*\{\s*_backend_worker->_options\.error_notifier\(std::string\{"Caught unhandled exception\."\}\);\s*\}//' MBW.poll_one
+run quill/StringRef.h 's/return sizeof\(size_t\) \+ sizeof\(uintptr_t\);/return sizeof(size_t) + sizeof(uint32_t);/' 'CD.roundtrip[utility::StringRef]'
+run quill/sinks/Sink.h 's/_new_filter\.store\(true, std::memory_order_relaxed\);/_new_filter.store(false, std::memory_order_relaxed);/' SK.add_filter
+run quill/Frontend.h 's/(get_spsc_queue<TFrontendOptions::queue_type>\(\)\s*)\.producer_capacity\(\)/$1.capacity()/' FE.queue_capacity
+run quill/backend/SignalHandler.h 's/if \(catchable_signal == SIGALRM\)\s*\{\s*QUILL_THROW\(QuillError\{"SIGALRM can not be part of catchable_signals\."\}\);\s*\}//' SIG.init_handler
+run quill/backend/BackendWorker.h 's/for \(size_t i = arg_names\.size\(\); i < static_cast<size_t>\(_format_args_store\.size\(\)\); \+\+i\)/for (size_t i = arg_names.size() + 1; i < static_cast<size_t>(_format_args_store.size()); ++i)/' BW.named_keys
+run quill/backend/BackendWorker.h 's/std::memcpy\(&logger_removal_flag_tmp, read_pos, sizeof\(uintptr_t\)\);\s*read_pos \+= sizeof\(uintptr_t\);\s*std::string_view const logger_name = Codec<std::string>::decode_arg\(read_pos\);/std::string_view const logger_name = Codec<std::string>::decode_arg(read_pos); std::memcpy(&logger_removal_flag_tmp, read_pos, sizeof(uintptr_t)); read_pos += sizeof(uintptr_t);/' BW.control_arms
+run quill/backend/BackendWorker.h 's/_thread_context_manager\.remove_shared_invalidated_thread_context\(\*found_invalid_and_empty_thread_context\);//' BW.cleanup_tc
+run quill/core/PatternFormatterOptions.h 's/timestamp_pattern == other\.timestamp_pattern &&//' PFO.equals
 exit $fail
